@@ -52,13 +52,21 @@ pub fn run(args: &Args) -> Report {
             rep.case(&key, true);
             rep.inc(&format!("domain_bits.{}", match e { 1..=6 => "1-6", 7..=16 => "7-16", 17..=40 => "17-40", _ => "41-64" }));
             let replay = json!({"digest": hex(&d), "counter": hex(&c), "n_queries": n, "log_domain": e});
+            // under the transcript hook's event budget: a loop that keeps drawing challenges (e.g. "until
+            // n distinct indices are held", which never ends when n exceeds the domain) is cut off
+            swiftness_transcript::verif::start(4 * n + 64);
             let got = catch(|| {
                 let mut t = Transcript::new_with_counter(d, c);
                 let q = generate_queries(&mut t, Felt::from(n), Felt::from(bound));
                 (q, *t.digest(), *t.counter())
             });
+            let _ = swiftness_transcript::verif::take();
             let (q, dg, ct) = match got {
                 Ok(x) => x,
+                Err(p) if p.is_budget() => {
+                    rep.violation("C10|challenge-count", &format!("generate_queries drew more than 4 x n_queries + 64 challenges for n_queries = {n} on a domain of 2^{e} points"), replay);
+                    continue;
+                }
                 Err(p) => {
                     rep.violation("C10|generate-panicked", &format!("generate_queries panicked {}:{} {}", p.file, p.line, p.msg), replay);
                     continue;
